@@ -107,8 +107,16 @@ def run_check(prop, tier, seed, replay=None):
     if jobs == 1 or os.environ.get("VERIF_SERIAL"):
         results = [_run_shard(a) for a in args]
     else:
-        with mp.get_context("fork").Pool(jobs) as pool:
-            results = pool.map(_run_shard, args, chunksize=1)
+        # ProcessPoolExecutor (not mp.Pool): if a worker is killed (OOM, stray signal) the run ends as INCONCLUSIVE instead of hanging
+        from concurrent.futures import ProcessPoolExecutor
+        from concurrent.futures.process import BrokenProcessPool
+        results = []
+        try:
+            with ProcessPoolExecutor(max_workers=jobs, mp_context=mp.get_context("fork")) as ex:
+                results = list(ex.map(_run_shard, args, chunksize=1))
+        except BrokenProcessPool:
+            print("INCONCLUSIVE property=%s a worker process of the monitor died (killed / out of memory); nothing is concluded from this run" % prop)
+            return 2
     for r in results:
         total.evaluations += r["evaluations"]
         total.nontrivial |= r["nontrivial"]
